@@ -67,6 +67,7 @@ def main (args : List String) : IO UInt32 := do
   | ["c20a5"] => mapLines i o drvC20a5; return 0
   | ["c17mr"] => mapLines i o drvC17mr; return 0
   | ["c17dec"] => mapLines i o drvC17dec; return 0
+  | ["c17elec"] => mapLines i o drvC17elec; return 0
   | ["c16"] => mapLines i o drvC16; return 0
   | ["c15pos"] => mapLines i o drvC15pos; return 0
   | ["c15enc"] => mapLines i o drvC15enc; return 0
